@@ -11,6 +11,7 @@ import (
 	"fmt"
 	"sort"
 	"strings"
+	"sync"
 )
 
 type Sx struct {
@@ -287,6 +288,10 @@ func containsAny(x *Sx, bound map[string]bool) bool {
 
 type ctxKey string
 
+// mergeAliases maps a merge constant to the printed branches of its defining ite (transitively); filled per query.
+var mergeAliases = map[string][]string{}
+var mergeMu sync.Mutex
+
 // contexts of argument position k of application x (others printed if ground w.r.t. bound)
 func ctxKeys(x *Sx, k int, bound map[string]bool) []ctxKey {
 	h := x.head()
@@ -309,6 +314,12 @@ func ctxKeys(x *Sx, k int, bound map[string]bool) []ctxKey {
 			o := x.L[3-k]
 			if !containsAny(o, bound) {
 				keys = append(keys, ctxKey("+|"+o.String()))
+			}
+			// an offset that is a merge constant (= (ite c a b)) also stands for its branches
+			if o.isAtom() {
+				for _, alias := range mergeAliases[o.A] {
+					keys = append(keys, ctxKey("+|"+alias))
+				}
 			}
 		}
 	case "store", "and", "or", "not", "=>", "ite", "=", "<", "<=", ">", ">=", "-", "*", "forall", "exists", "!", "div", "mod", "distinct":
@@ -427,6 +438,33 @@ const maxInstTotal = 6000
 
 // instantiate performs rounds of context-based instantiation. Returns the added instance assertions.
 func (ic *instCtx) instantiate(asserts []*Sx, rounds int) []*Sx {
+	mergeMu.Lock()
+	defer mergeMu.Unlock()
+	mergeAliases = map[string][]string{}
+	for _, a := range asserts {
+		if a.head() == "=" && len(a.L) == 3 && a.L[1].isAtom() && a.L[2].head() == "ite" && len(a.L[2].L) == 4 {
+			mergeAliases[a.L[1].A] = append(mergeAliases[a.L[1].A], a.L[2].L[2].String(), a.L[2].L[3].String())
+		}
+	}
+	for k := 0; k < 3; k++ { // transitive closure (bounded)
+		for name, al := range mergeAliases {
+			for _, x := range al {
+				if more, ok := mergeAliases[x]; ok {
+					for _, m := range more {
+						dup := false
+						for _, y := range mergeAliases[name] {
+							if y == m {
+								dup = true
+							}
+						}
+						if !dup {
+							mergeAliases[name] = append(mergeAliases[name], m)
+						}
+					}
+				}
+			}
+		}
+	}
 	seen := map[string]bool{}
 	for _, a := range asserts {
 		seen[a.String()] = true
@@ -463,126 +501,98 @@ func (ic *instCtx) instantiate(asserts []*Sx, rounds int) []*Sx {
 						}
 					}
 				}
-				cands := make([][]*Sx, len(names))
-				ok := true
-				for i, n := range names {
-					ctxs := map[ctxKey]bool{}
-					if len(patTerms) > 0 {
-						for _, pt := range patTerms {
-							varContexts(pt, n, bound, ctxs)
+				// candidate selection is sequential: a variable whose contexts mention other bound variables gets its
+				// candidates after those have been substituted
+				budget := maxInstPerQuant
+				var rec func(b *Sx, rest []string, tuple string)
+				rec = func(b *Sx, rest []string, tuple string) {
+					if budget <= 0 {
+						return
+					}
+					if len(rest) == 0 {
+						dk := fmt.Sprintf("%p|%v|%s", q, p, tuple)
+						if done[dk] {
+							return
 						}
-					}
-					if len(ctxs) == 0 {
-						varContexts(body, n, bound, ctxs)
-					}
-					// untyped contexts (root, dyntype, ...) collect references of every type: use them only
-					// when the variable has no typed context (field array index, embedded-object function)
-					typed := 0
-					for c := range ctxs {
-						if !genericCtx(c) {
-							typed++
-						}
-					}
-					if typed > 0 {
-						for c := range ctxs {
-							if genericCtx(c) {
-								delete(ctxs, c)
-							}
-						}
-					}
-					set := map[string]*Sx{}
-					for c := range ctxs {
-						for s, t := range ground[c] {
-							set[s] = t
-						}
-					}
-					if len(set) == 0 {
-						ok = false
-						break
-					}
-					var keys []string
-					for s := range set {
-						keys = append(keys, s)
-					}
-					sort.Strings(keys)
-					for _, s := range keys {
-						cands[i] = append(cands[i], set[s])
-					}
-				}
-				if !ok {
-					continue
-				}
-				total := 1
-				for _, c := range cands {
-					total *= len(c)
-					if total > maxInstPerQuant {
-						break
-					}
-				}
-				if total > maxInstPerQuant {
-					// trim candidate lists evenly (prefer shorter terms: closer to the program's own indices)
-					for i := range cands {
-						sort.SliceStable(cands[i], func(a, b int) bool {
-							sa, sb := cands[i][a].String(), cands[i][b].String()
-							ka, kb := strings.Contains(sa, "sk!"), strings.Contains(sb, "sk!")
-							if ka != kb {
-								return ka // goal-related terms (skolems) first
-							}
-							return len(sa) < len(sb)
-						})
-					}
-					for total > maxInstPerQuant {
-						// drop from the longest list
-						li := 0
-						for i := range cands {
-							if len(cands[i]) > len(cands[li]) {
-								li = i
-							}
-						}
-						if len(cands[li]) <= 1 {
-							break
-						}
-						cands[li] = cands[li][:len(cands[li])-1]
-						total = 1
-						for _, c := range cands {
-							total *= len(c)
-						}
-					}
-				}
-				idx := make([]int, len(names))
-				for {
-					m := map[string]*Sx{}
-					var tk strings.Builder
-					for i, n := range names {
-						m[n] = cands[i][idx[i]]
-						tk.WriteString(cands[i][idx[i]].String())
-						tk.WriteByte('|')
-					}
-					dk := fmt.Sprintf("%p|%v|%s", q, p, tk.String())
-					if !done[dk] {
 						done[dk] = true
-						inst := ic.pos(subst(body, m))
+						budget--
+						inst := ic.pos(b)
 						na := replaceAt(a, p, inst)
 						s := na.String()
 						if !seen[s] && len(s) < 20000 {
 							seen[s] = true
 							newOnes = append(newOnes, na)
 						}
+						return
 					}
-					// next tuple
-					k := len(idx) - 1
-					for k >= 0 {
-						idx[k]++
-						if idx[k] < len(cands[k]) {
-							break
+					restBound := map[string]bool{}
+					for _, n := range rest {
+						restBound[n] = true
+					}
+					// pick the first remaining variable that has candidates now
+					for vi, n := range rest {
+						ctxs := map[ctxKey]bool{}
+						if len(patTerms) > 0 {
+							for _, pt := range patTerms {
+								varContexts(pt, n, restBound, ctxs)
+							}
 						}
-						idx[k] = 0
-						k--
-					}
-					if k < 0 {
-						break
+						if len(ctxs) == 0 {
+							varContexts(b, n, restBound, ctxs)
+						}
+						typed := 0
+						for c := range ctxs {
+							if !genericCtx(c) {
+								typed++
+							}
+						}
+						if typed > 0 {
+							for c := range ctxs {
+								if genericCtx(c) {
+									delete(ctxs, c)
+								}
+							}
+						}
+						set := map[string]*Sx{}
+						for c := range ctxs {
+							for s, t := range ground[c] {
+								set[s] = t
+							}
+						}
+						if len(set) == 0 {
+							continue
+						}
+						var keys []string
+						for s := range set {
+							keys = append(keys, s)
+						}
+						sort.Slice(keys, func(x, y int) bool {
+							kx, ky := strings.Contains(keys[x], "sk!"), strings.Contains(keys[y], "sk!")
+							if kx != ky {
+								return kx
+							}
+							if len(keys[x]) != len(keys[y]) {
+								return len(keys[x]) < len(keys[y])
+							}
+							return keys[x] < keys[y]
+						})
+						others := append(append([]string{}, rest[:vi]...), rest[vi+1:]...)
+						per := budget
+						if len(others) > 0 && per > 24 {
+							per = 24 // leave room for the remaining variables
+						}
+						for ci, s := range keys {
+							if ci >= per || budget <= 0 {
+								break
+							}
+							rec(subst(b, map[string]*Sx{n: set[s]}), others, tuple+s+"|")
+						}
+						return
 					}
 				}
+				// patterns mention bound variables by name: keep them in sync with substitution by instantiating
+				// pattern terms too (they are only used for context lookup)
+				rec(body, names, "")
 				if len(added)+len(newOnes) > maxInstTotal {
 					break
 				}
